@@ -16,6 +16,9 @@ pub struct Case {
     pub other: Blob,
     pub dmg: CDamage,
     pub bufs: Vec<usize>,
+    /// >0: every retrieval is also made by this many threads at once (before and after the damage)
+    #[serde(default)]
+    pub threads: u8,
 }
 
 pub struct C01;
@@ -81,10 +84,10 @@ impl Engine for C01 {
             let blob = Blob::new(len, 100 + li as u64);
             let other = Blob::new(len.max(2) - 1, 200 + li as u64);
             for bit in 0..len * 8 {
-                out.push(Case { algo, blob: blob.clone(), other: other.clone(), dmg: CDamage::FlipBit(bit), bufs: vec![] });
+                out.push(Case { algo, blob: blob.clone(), other: other.clone(), dmg: CDamage::FlipBit(bit), bufs: vec![], threads: 0 });
             }
             for n in 0..len {
-                out.push(Case { algo, blob: blob.clone(), other: other.clone(), dmg: CDamage::Truncate(n), bufs: vec![3] });
+                out.push(Case { algo, blob: blob.clone(), other: other.clone(), dmg: CDamage::Truncate(n), bufs: vec![3], threads: 0 });
             }
         }
         // every algorithm sees every damage class once
@@ -105,14 +108,30 @@ impl Engine for C01 {
                 CDamage::SymlinkToDir,
                 CDamage::Delete,
             ] {
-                out.push(Case { algo, blob: blob.clone(), other: other.clone(), dmg, bufs: vec![1, 64] });
+                out.push(Case { algo, blob: blob.clone(), other: other.clone(), dmg, bufs: vec![1, 64], threads: 0 });
             }
+        }
+        // several threads of one process ask for the same (pristine, then damaged) entry at once
+        for (i, (len, dmg)) in [
+            (300_000usize, CDamage::FlipBit(300_000 * 8 - 1)),
+            (2_500_000, CDamage::Garbage { off: 2_400_000, len: 9, salt: 5 }),
+            (2_500_000, CDamage::Truncate(2_499_999)),
+            (6_000_000, CDamage::FlipBit(5)),
+        ]
+        .into_iter()
+        .enumerate()
+        {
+            out.push(Case { algo: ALGOS[i % 2], blob: Blob::new(len, 300 + i as u64), other: Blob::new(9, 400), dmg, bufs: vec![65536], threads: 6 });
+        }
+        // zero runs at the granularities sparse-file tricks work with
+        for (i, (len, fill)) in [(131072usize, blob::Fill::Zero), (262144, blob::Fill::Zero), (393216, blob::Fill::ZeroTail), (196608, blob::Fill::ZeroTail), (65536, blob::Fill::Zero), (393216, blob::Fill::ZeroHead)].into_iter().enumerate() {
+            out.push(Case { algo: ALGOS[i % 5], blob: Blob { len, salt: 3, fill }, other: Blob::new(9, 401), dmg: CDamage::FlipBit(len * 8 - 1), bufs: vec![], threads: 0 });
         }
         out
     }
     fn exhaustive_note(&self, tier: Tier) -> String {
         format!(
-            "every single-bit flip and every truncation length of blobs of {} bytes; plus each of 12 damage classes under each of the 5 algorithms",
+            "every single-bit flip and every truncation length of blobs of {} bytes; plus each of 12 damage classes under each of the 5 algorithms; 4 large entries retrieved by 6 threads at once; 6 entries with zero runs of 64..128 KiB",
             tier.pick("1, 7, 64", "1, 7, 64, 257, 1025")
         )
     }
@@ -121,8 +140,8 @@ impl Engine for C01 {
     }
     fn strategy(&self, tier: Tier) -> BoxedStrategy<Case> {
         let mix = tier.pick(SizeMix::Normal, SizeMix::Normal);
-        (gen::algo(), gen::blob(mix), gen::blob(SizeMix::Small), gen::cdamage(2), gen::bufs())
-            .prop_map(|(algo, blob, mut other, mut dmg, bufs)| {
+        (gen::algo(), gen::blob(mix), gen::blob(SizeMix::Small), gen::cdamage(2), gen::bufs(), prop::bool::weighted(0.08))
+            .prop_map(|(algo, blob, mut other, mut dmg, bufs, threads)| {
                 if other.bytes() == blob.bytes() {
                     other.len += 1;
                 }
@@ -132,7 +151,7 @@ impl Engine for C01 {
                     CDamage::SwapWith(a) => *a = AddrRef { algo, blob: 1 },
                     _ => {}
                 }
-                Case { algo, blob, other, dmg, bufs }
+                Case { algo, blob, other, dmg, bufs, threads: if threads { 4 } else { 0 } }
             })
             .boxed()
     }
@@ -184,6 +203,9 @@ impl Engine for C01 {
                 return Err(format!("{:?}/{:?} on the undamaged {}-byte {} entry: {}", step.op, step.fl, orig.len(), c.algo.name(), r.out.short()));
             }
         }
+        if c.threads > 0 {
+            concurrent_phase(c, &ctx, &keys, &blobs, false, &want0, &want_sri, st)?;
+        }
         crate::damage::damage_content(&ctx, addr, &c.dmg);
         let obs = observe(&ctx.content_path(addr));
         let differs = match &obs {
@@ -231,6 +253,10 @@ impl Engine for C01 {
                 o => return Err(format!("{what}: unexpected result {}", o.short())),
             }
         }
+        if c.threads > 0 {
+            concurrent_phase(c, &ctx, &keys, &blobs, true, &want, &want_sri, st)?;
+            st.class("retrieved_by_several_threads_at_once");
+        }
         if differs {
             st.class("nontrivial");
             st.nontrivial(h);
@@ -247,6 +273,55 @@ impl Engine for C01 {
         }
         Ok(())
     }
+}
+
+/// Every checked retrieval made by `c.threads` threads at once (each with its own destination
+/// directory): on the pristine entry all must deliver the stored bytes; on the damaged one each
+/// must fail or deliver the stored bytes — whatever the others are doing meanwhile.
+#[allow(clippy::too_many_arguments)]
+fn concurrent_phase(c: &Case, ctx: &Ctx, keys: &[String], blobs: &[Blob], damaged: bool, want: &(u64, String), want_sri: &str, st: &mut Stats) -> Result<(), String> {
+    let n = c.threads as usize;
+    for mut step in retrievals(&c.bufs) {
+        match &mut step.op {
+            Op::ReadHash { addr: a } => a.algo = c.algo,
+            Op::Stream { by: By::Addr(a), .. } | Op::Extract { by: By::Addr(a), .. } => a.algo = c.algo,
+            _ => {}
+        }
+        if matches!(step.op, Op::Extract { kind: XKind::Reflink, .. } | Op::Extract { dest: Dest::OtherFs, .. } | Op::Extract { dest: Dest::Existing, .. }) {
+            continue;
+        }
+        let barrier = std::sync::Barrier::new(n);
+        let outs: Vec<Out> = std::thread::scope(|sc| {
+            let hs: Vec<_> = (0..n)
+                .map(|t| {
+                    let (barrier, step) = (&barrier, &step);
+                    let cache = ctx.cache.clone();
+                    let scratch = ctx.scratch.join(format!("t{t}"));
+                    sc.spawn(move || {
+                        let _ = std::fs::create_dir_all(&scratch);
+                        let tctx = Ctx::new(cache, scratch, keys, blobs);
+                        barrier.wait();
+                        run_step(&tctx, step).out
+                    })
+                })
+                .collect();
+            hs.into_iter().map(|h| h.join().unwrap_or(Out::Panic("retrieval thread died".into()))).collect()
+        });
+        for (t, out) in outs.iter().enumerate() {
+            st.eval(1);
+            let what = format!("{:?}/{:?} made by {n} threads at once ({}), thread {t}, {}-byte {} entry", step.op, step.fl, if damaged { format!("after {:?}", c.dmg) } else { "undamaged".into() }, want.0, c.algo.name());
+            match out {
+                Out::Bytes(k, hx) | Out::Extracted { dest: DestState::File(k, hx), .. } => {
+                    if (*k, hx.clone()) != *want {
+                        return Err(format!("{what}: delivered {k} bytes sha256={hx}; stored were {} bytes sha256={} (address {want_sri})", want.0, want.1));
+                    }
+                }
+                Out::Err(..) | Out::ExtractErr { .. } if damaged => {}
+                o => return Err(format!("{what}: {}", o.short())),
+            }
+        }
+    }
+    Ok(())
 }
 
 pub fn damage_name(d: &CDamage) -> &'static str {
